@@ -1,5 +1,6 @@
 """Shared by C15 / C27: run the UB-obligation engine on the exact-arithmetic units and compare residuals with the justified table."""
 import json
+import re
 import os
 import shutil
 import tempfile
@@ -93,8 +94,6 @@ def run_engine(fx):
 
 def residual_rule(res, fx, rule_name, text, scope_files, func_filter=None, floor=5, min_total=0):
     table = json.load(open(os.path.join(VERIF, 'sa', 'tables', 'ub_residuals.json')))['entries']
-    just = {(e['fn'], e['kind'], e['text']): e['why'] for e in table}
-    requires = {(e['fn'], e['kind'], e['text']): e.get('requires', []) for e in table}
     tot, resid = run_engine(fx)
     r = res.rule(rule_name, text, floor=floor)
     in_scope = lambda x: x[0] in scope_files
@@ -110,7 +109,11 @@ def residual_rule(res, fx, rule_name, text, scope_files, func_filter=None, floor
         if x not in resid:
             discharged += 1
     res.extra.setdefault('ub_engine', {})[rule_name] = {'obligations_O0': n_tot, 'discharged_by_llvm_O2': discharged}
-    seen = set()
+    # Residual obligations are paired with table entries per (function, kind): an exact source-line match first, the rest in source order.
+    # The line text is therefore informational: renaming a local or splitting a statement does not turn a justified operation into a report;
+    # one operation more than the table lists for that function and kind does.
+    by_group = {}
+    sites = set()
     for x in sorted(resid):
         if not in_scope(x):
             continue
@@ -119,26 +122,49 @@ def residual_rule(res, fx, rule_name, text, scope_files, func_filter=None, floor
         if func_filter and not func_filter(x[0], fn):
             continue
         txt = ubsan_ir.line_text(path, x[1])
-        key = (fn, x[3], txt)
-        if key in seen:
+        if (fn, x[3], x[0], x[1], txt) in sites:
             continue
-        seen.add(key)
-        if key in just:
-            # the justification may name guards that must still be present (in the enclosing function before the operation, or anywhere in the file for macros)
-            req = requires.get(key, [])
+        sites.add((fn, x[3], x[0], x[1], txt))
+        by_group.setdefault((fn, x[3]), []).append((x, txt))
+    entries = {}
+    for e in table:
+        entries.setdefault((e['fn'], e['kind']), []).append(e)
+    for (fn, kind), obs in sorted(by_group.items()):
+        avail = list(entries.get((fn, kind), []))
+        pairs = []
+        rest = []
+        for x, txt in obs:
+            m = next((e for e in avail if e['text'] == txt), None)
+            if m is not None:
+                avail.remove(m)
+                pairs.append((x, txt, m))
+            else:
+                rest.append((x, txt))
+        for x, txt in rest:
+            if avail:
+                pairs.append((x, txt, avail.pop(0)))
+            else:
+                pairs.append((x, txt, None))
+        for x, txt, e in pairs:
+            path = os.path.join(fx.src_root, x[0])
+            if e is None:
+                n_listed = len(entries.get((fn, kind), []))
+                res.bad(r, 'unjustified-ub:%s:%s' % (fn, kind), 'src/%s:%d' % (x[0], x[1]),
+                        '%s: %s at column %d of `%s` is neither discharged by LLVM\'s range analysis at -O2 nor covered by the justified table (which lists %d such operation(s) in this function): '
+                        'an unguarded wrap-around / narrowing on the exact-arithmetic path' % (fn, kind, x[2], txt[:120], n_listed))
+                continue
+            req = e.get('requires', [])
             fobj = enclosing_obj(fx, path, x[1])
             lines = open(path, errors='replace').read().split('\n')
             before = ' '.join(' '.join(l.split()) for l in lines[(fobj['line'] - 1 if fobj else 0):x[1]])
             whole = ' '.join(' '.join(l.split()) for l in lines)
             missing = [g for g in req if not guard_present(g[1:] if g.startswith('@') else g, whole if g.startswith('@') else before)]
+            # a justification that rests on a macro definition (@MACRO tokens...) covers only operations written through that macro
+            missing += ['use of ' + g[1:].split()[0] for g in req if g.startswith('@') and re.match(r'^[A-Z][A-Z0-9_]+$', g[1:].split()[0]) and g[1:].split()[0] not in txt]
             if missing:
-                res.bad(r, 'guard-removed:%s:%s' % (fn, x[3]), 'src/%s:%d' % (x[0], x[1]), '%s: the %s at `%s` was justified by the guard %s, which is no longer present before it' % (fn, x[3], txt[:100], missing))
+                res.bad(r, 'guard-removed:%s:%s' % (fn, kind), 'src/%s:%d' % (x[0], x[1]), '%s: the %s at `%s` was justified by the guard %s, which is no longer present before it' % (fn, kind, txt[:100], missing))
             else:
-                res.ok(r, '%s:%d %s in %s: %s' % (x[0], x[1], x[3], fn, just[key][:140]))
-        else:
-            res.bad(r, 'unjustified-ub:%s:%s:%s' % (fn, x[3], txt[:60]), 'src/%s:%d' % (x[0], x[1]),
-                    '%s: %s at column %d of `%s` is neither discharged by LLVM\'s range analysis at -O2 nor in the justified table: an unguarded wrap-around / narrowing on the exact-arithmetic path'
-                    % (fn, x[3], x[2], txt[:120]))
+                res.ok(r, '%s:%d %s in %s: %s' % (x[0], x[1], kind, fn, e['why'][:140]))
     # the obligations LLVM discharged count as instances too
     for _ in range(discharged):
         r['instances'] += 1
